@@ -8,7 +8,9 @@ from ..gen import peg as G
 def mm_kwargs(cfg):
     kw = dict(skipws=cfg["skipws"], ignore_case=cfg["icase"], autokwd=cfg["autokwd"],
               memoization=cfg["memo"], use_regexp_group=cfg["regroup"], auto_init_attributes=cfg["autoinit"])
-    if cfg["ws"]:
+    if cfg.get("wsnone"):
+        kw["ws"] = ""                      # an explicitly empty whitespace set (comments are still skipped)
+    elif cfg["ws"]:
         kw["ws"] = G.text(cfg["ws"])
     return kw
 
@@ -56,11 +58,16 @@ def offset(text, line, col):
     return sum(len(l) + 1 for l in lines[: line - 1]) + (col - 1)
 
 
-def make_user_class(name):
+def make_user_class(name, class_attrs=()):
+    """A plain user class; `class_attrs` are given class-level defaults (a common Python idiom that must not
+    change what the loaded objects hold)."""
     def __init__(self, **kwargs):
         for k, v in kwargs.items():
             setattr(self, k, v)
-    return type(name, (object,), {"__init__": __init__})
+    d = {"__init__": __init__}
+    for i, a in enumerate(class_attrs):
+        d[a] = [] if i % 2 == 0 else None
+    return type(name, (object,), d)
 
 
 class Built:
@@ -73,8 +80,10 @@ class Built:
         kw = mm_kwargs(cfg)
         if cfg.get("userclasses"):
             # plain user-supplied classes for every rule with assignments (same semantics prescribed)
-            kw["classes"] = [make_user_class(r["name"]) for r in g["rules"]
-                             if any(e["k"] == "asg" for e in G.walk_all(r["body"]))]
+            ca = cfg["userclasses"] == "classattrs"
+            kw["classes"] = [make_user_class(r["name"], sorted({e["attr"] for e in G.walk_all(r["body"])
+                                                                if e["k"] == "asg"}) if ca else ())
+                             for r in g["rules"] if any(e["k"] == "asg" for e in G.walk_all(r["body"]))]
         self.mm = metamodel_from_str(self.text, **kw)
 
     def run(self, inp):
